@@ -7,7 +7,7 @@ from contracts.lib import *  # noqa
 
 LEVEL = "proof"
 MANIFEST_ENTRY = {
-    "text": "Unbounded proof (all file sizes, all segment sizes, every k in 1..256 by exhaustive case split) that the real uploader-side and downloader-side geometry functions agree on segment count, tail size, padded tail and block sizes, that the segments sum to the file size, and that delivered ranges are trimmed exactly; partial: the Deferred pipeline, zfec, AES and hash-tree construction are not under contract.",
+    "text": "Unbounded proof (all file sizes, all segment sizes, every k in 1..256 by exhaustive case split) that the real uploader-side and downloader-side geometry functions agree on segment count, tail size, padded tail and block sizes, that the segments sum to the file size, and that delivered ranges are trimmed exactly; share layout: the offset table written by WriteBucketProxy / WriteBucketProxy_v2._create_offsets is read back to the same six offsets by ReadBucketProxy._parse_offsets for every block size, data size and hash-area size, the sections follow each other without gap or overlap, the allocated size covers the length-prefixed extension block, and only sizes that do not fit the 4-byte (8-byte) fields are refused; partial: the Deferred pipeline, zfec, AES and hash-tree construction are not under contract.",
     "note": "Partial claim (DESIGN 6 C01 'Not decided'). k,N <= 256 is zfec's limit enforced by hashutil._convergence_hasher_tag. Trusted: pyvc engine, z3; pyutil.mathutil is NOT trusted (its source is executed symbolically).",
 }
 EXPLANATION = "Relational contract over Encoder._got_all_encoding_parameters and DownloadNode._calculate_sizes executed on the same symbolic (size, k, N, segsize)."
@@ -194,5 +194,96 @@ class UploadGotSize(Spec):
         return plain_equal(n.value, s.value)
 
 
+class ShareLayoutRT(Spec):
+    """WriteBucketProxy(_v2)._create_offsets writes an offset table that ReadBucketProxy._parse_offsets reads back to the
+    same six offsets; sections are laid out in order without overlap; only oversized files are refused"""
+    file = "allmydata/immutable/layout.py"
+    cross_check = 40
+    canary_case = {"v": 1}
+
+    def __init__(self, v=None):
+        self.qualname = "WriteBucketProxy._create_offsets"
+
+    @property
+    def raises(self):
+        return (self.module().FileTooLargeError,)
+
+    def inputs(self):
+        big = lambda r: r.choice([0, 1, 100, 2 ** 32 - 1, 2 ** 32, 2 ** 31])     # noqa
+        return {"v": ChoiceK([1, 2]), "block_size": IntK(0, rnd=big), "data_size": IntK(0, rnd=big), "seg_hash_size": IntK(0, rnd=lambda r: 32 * r.choice([1, 3, 7])),
+                "share_hashtree_size": IntK(0, rnd=lambda r: 34 * r.randint(0, 5)), "ueb_size": IntK(0, rnd=lambda r: r.randint(0, 500))}
+
+    def all_cases(self):
+        return [{"v": 1}, {"v": 2}]
+
+    def requires(self, I, a):
+        # the 8-byte variant is only ever asked for sizes its fields can hold in practice; keep the symbolic range finite for v2 too
+        return z3.BoolVal(True)
+
+    def classes(self, a):
+        M = self.module()
+        return (M.WriteBucketProxy if a["v"] == 1 else M.WriteBucketProxy_v2), M.ReadBucketProxy
+
+    def run(self, I, a):
+        W, R = self.classes(a)
+        w = SObj(W, {"_segment_hash_size": a["seg_hash_size"], "_share_hashtree_size": a["share_hashtree_size"], "_uri_extension_size": a["ueb_size"]})
+        try:
+            I.call_value(I.get_attr(w, "_create_offsets"), [a["block_size"], a["data_size"]], {})
+        except PyRaise as pr:
+            return Outcome("raise", exc=pr.exc, exc_cls=pr.cls)
+        r = SObj(R, {})
+        parsed = I.call_value(I.get_attr(r, "_parse_offsets"), [w.fields["_offset_data"]], {})
+        alloc = I.call_value(I.get_attr(w, "get_allocated_size"), [], {})
+        out = Outcome("return", parsed)
+        out.post = {"w": w, "alloc": alloc, "r": r}
+        return out
+
+    def native(self, a):
+        W, R = self.classes(a)
+
+        def f():
+            w = object.__new__(W)
+            w._segment_hash_size, w._share_hashtree_size, w._uri_extension_size = a["seg_hash_size"], a["share_hashtree_size"], a["ueb_size"]
+            w._create_offsets(a["block_size"], a["data_size"])
+            r = object.__new__(R)
+            parsed = r._parse_offsets(w._offset_data)
+            return parsed, w
+        out = native_outcome(f)
+        if out.kind == "return":
+            out.value, w = out.value
+            out.post = {"w": w, "alloc": w.get_allocated_size(), "r": None}
+        return out
+
+    def same_result(self, n, s):
+        from pyvc.runner import plain_equal
+        return plain_equal(dict(n.value), dict(s.value))
+
+    def ensures(self, I, a, out):
+        lim = 2 ** 32 if a["v"] == 1 else 2 ** 64
+        hdr = 0x24 if a["v"] == 1 else 0x44
+        bs, ds, sh, st = Z(a["block_size"]), Z(a["data_size"]), Z(a["seg_hash_size"]), Z(a["share_hashtree_size"])
+        end = hdr + ds + 3 * sh + st
+        too_big = z3.Or(bs >= lim, ds >= lim, end >= lim)
+        if out.kind == "raise":
+            return [("only-files-whose-sizes-or-offsets-do-not-fit-the-fields-are-refused", too_big)]
+        w = out.post["w"]
+        wo = w.fields["_offsets"] if isinstance(w, SObj) else w._offsets
+        po = out.value
+        names = ("data", "plaintext_hash_tree", "crypttext_hash_tree", "block_hashes", "share_hashes", "uri_extension")
+        g = [("nothing-that-does-not-fit-is-written", z3.Not(too_big))]
+        for nm in names:
+            g.append(("reader-sees-the-writers-offset-of-%s" % nm, Z(po[nm]) == Z(wo[nm])))
+        g += [("block-data-starts-right-after-the-header", Z(wo["data"]) == hdr),
+              ("sections-follow-each-other-without-gap-or-overlap", z3.And(Z(wo["plaintext_hash_tree"]) == hdr + ds, Z(wo["crypttext_hash_tree"]) == hdr + ds + sh,
+                                                                             Z(wo["block_hashes"]) == hdr + ds + 2 * sh, Z(wo["share_hashes"]) == hdr + ds + 3 * sh, Z(wo["uri_extension"]) == end)),
+              ("allocated-size-covers-the-length-prefixed-extension-block", Z(out.post["alloc"]) == end + (4 if a["v"] == 1 else 8) + Z(a["ueb_size"]))]
+        return g
+
+    def canary(self, I, a, out):
+        if out.kind != "return":
+            return []
+        return [("canary", Z(out.value["uri_extension"]) < 1000)]
+
+
 def contracts(tier):
-    return [GeometryAgree(), UploadGotSize()]
+    return [GeometryAgree(), UploadGotSize(), ShareLayoutRT()]
